@@ -280,6 +280,32 @@ fn run_op(st: &mut St, op: &Value) -> Value {
         "line_range" => json!(st.g.node_line_range(op["id"].as_u64().unwrap()).map(|r| vec![r.start, r.end])),
         "key_of" => json!((&st.g).key_of(op["id"].as_u64().unwrap()).to_string()),
         "paths" => json!(st.g.paths().iter().map(|p| p.ids()).collect::<Vec<_>>()),
+        "link_pos" => {
+            // first link of the document: its inline range (line, character)
+            let d = liwe::graph::Reader::document(&MarkdownReader::new(), op["text"].as_str().unwrap());
+            fn find(b: &DocumentBlock) -> Option<DocumentInline> {
+                match b {
+                    DocumentBlock::Para(p) => p.inlines.iter().find(|i| i.is_link()).cloned(),
+                    DocumentBlock::Plain(p) => p.inlines.iter().find(|i| i.is_link()).cloned(),
+                    DocumentBlock::Header(p) => p.inlines.iter().find(|i| i.is_link()).cloned(),
+                    DocumentBlock::BlockQuote(q) => q.blocks.iter().find_map(find),
+                    DocumentBlock::BulletList(l) => l.items.iter().flatten().find_map(find),
+                    DocumentBlock::OrderedList(l) => l.items.iter().flatten().find_map(find),
+                    _ => None,
+                }
+            }
+            match d.blocks.iter().find_map(find) {
+                Some(l) => {
+                    let r = l.inline_range();
+                    json!({"start": [r.start.line, r.start.character], "end": [r.end.line, r.end.character]})
+                }
+                None => json!(null),
+            }
+        }
+        "url_at" => {
+            let p = liwe::parser::Parser::new(op["text"].as_str().unwrap(), MarkdownReader::new());
+            json!(p.url_at(Position { line: op["line"].as_u64().unwrap() as usize, character: op["character"].as_u64().unwrap() as usize }))
+        }
         "key_parent" => json!(Key::from_file_name(op["key"].as_str().unwrap()).parent()),
         "key_from_rel" => json!(Key::from_rel_link_url(op["url"].as_str().unwrap(), op["rel"].as_str().unwrap()).to_string()),
         "key_to_rel" => json!(Key::from_file_name(op["key"].as_str().unwrap()).to_rel_link_url(op["rel"].as_str().unwrap())),
